@@ -24,6 +24,23 @@ KNOWN_FINDINGS = [
 ]
 
 
+MANIFEST = {
+    "text": "Coq theorems over the executable model of util.FormatKey/ParseKey/NewKeyObj, the key<->list-entry conversion of "
+            "api.go and the paging code (Model/Keys.v, IpApi.v, Page.v), for ALL pods with DNS-1123 ('_'-free, non-empty) names, "
+            "namespaces and owner names, any owner kind and any pool string: key_injective (equal keys => equal namespace, app, "
+            "pod), parse_format (for '_'-free kind and pool ParseKey(FormatKey p) returns exactly p's fields), "
+            "list_release_roundtrip + blank_type_is_statefulset (every listed entry posted back addresses the same key; an omitted "
+            "appType means statefulset), release_exact / release_exact_owner (a release frees x only if x's current key equals the "
+            "posted key - never another owner's IP), pages_partition / pages_beyond_empty / sort_by_ip_permutation (pages of the "
+            "IP-sorted list partition it for every size). The old defects F5/F6 keep their refutation witnesses for the old flags. "
+            "Tied to the code by generated pods/kinds/pools through the real FormatKey/ParseKey and the real HTTP ListIPs/ReleaseIPs "
+            "controllers wired to the real plugin, compared field by field with the model.",
+    "note": "trusted: Coq kernel (no axioms); ASCII names only in the model (the differ sends non-ASCII too and then only requires "
+            "same accept/reject); go-restful routing and JSON entity decoding are exercised, not modelled; known finding K4 (pool "
+            "annotation containing '_') is outside parse_format's hypothesis and reported as KNOWN-FINDING",
+}
+
+
 def lstr(l):
     return clist(cstr(x) for x in l)
 
